@@ -30,6 +30,8 @@ typedef struct interp_result_s {
 	int excluded;       /* case outside the strict scope of the property's oracle (still run) */
 	int nthreads;
 	int nops;
+	int sub_evaluations;  /* ALLOC: executions (fault positions) enumerated inside this case */
+	int sub_nontrivial;
 } interp_result;
 
 #if defined(__cplusplus)
